@@ -202,11 +202,20 @@ Proof. vm_compute. repeat split; try reflexivity. discriminate. Qed.
    sequence wrap, a sender report and a lost middle fragment is well-formed;
    the specification keeps the aggregated units and drops the fragmented one *)
 Definition nv_items : list titem :=
-  [TData (IAgg 3000 false [[103; 66; 0]; [104; 206]]); TSr 1000 5 6;
+  [TSr 1000 5 6; TData (IAgg 3000 false [[103; 66; 0]; [104; 206]]);
    TData (IFrag 6000 true [101; 1; 2; 3; 4; 5; 6; 7] [2; 2; 2]); TData (ISingle 9000 true [9; 240])].
 Definition nv_mask := [true; true; true; true; false; true; true].
 Theorem C06_nonvacuous :
   case_wf CH264 90000 65534 nv_items nv_mask = true /\
   tspec CH264 90000 0 nv_items nv_mask =
-    [mkO 0 533333333 [103; 66; 0]; mkO 0 533333333 [104; 206]; mkO 0 588888888 [9; 240]].
+    [mkO 0 522222222 [103; 66; 0]; mkO 0 522222222 [104; 206]; mkO 0 588888888 [9; 240]].
 Proof. vm_compute. split; reflexivity. Qed.
+
+(* known finding pts-rebase-at-first-sr: with a sender report behind media the code's
+   stamping (tspec, which the model follows) is not the one-clock specification *)
+Theorem pts_rebase_refuted :
+  let items := [TData (ISingle 93600 true [65; 1; 2]); TSr 2147483648 0 0; TData (ISingle 97200 true [65; 3; 4])] in
+  sr_before_data false items = false /\
+  tspec CH264 90000 0 items [true; true; true] = [mkO 0 1540000000 [65; 1; 2]; mkO 0 (-23859349422222) [65; 3; 4]] /\
+  tspec_one CH264 90000 items [true; true; true] <> tspec CH264 90000 0 items [true; true; true].
+Proof. vm_compute. repeat split; try reflexivity. discriminate. Qed.
